@@ -66,6 +66,16 @@ def phi(vals):
         return UNIT
     if len(out) == 1:
         return out[0]
+    if len(out) == 2:
+        # a flag that starts as b and is set to !b in some iteration of a loop under conditions C says, after the loop: "C held in some iteration" (or its negation)
+        for a, b in ((out[0], out[1]), (out[1], out[0])):
+            if a[0] == "bool" and b[0] == "flag" and b[3] == (not a[1]):
+                ex = ("exists", b[1], b[2])
+                return ex if not a[1] else ("not", ex)
+            if a == ("bool", False) and b[0] == "exists":
+                return b
+            if a == ("bool", True) and b[0] == "not" and b[1][0] == "exists":
+                return b
     return ("phi", tuple(out))
 
 
@@ -133,6 +143,15 @@ class Interp:
     def assign(self, name, v):
         for fr in reversed(self.env):
             if name in fr:
+                d = fr.get("\0d:" + name)
+                old = fr[name]
+                if d is not None and len(self.loopstack) > d and v[0] == "bool":
+                    # a boolean flag declared outside the loop(s) we are in, set to a constant inside: remember under which conditions of which loop
+                    start = old[1] if old[0] == "bool" else (not old[3]) if old[0] == "flag" else False if old[0] == "exists" else True if (old[0] == "not" and old[1][0] == "exists") else None
+                    if start is not None and start != v[1]:
+                        lid = self.loopstack[d]
+                        n0 = len(self.loops[lid]["ctx"] or ())
+                        v = ("flag", lid, tuple(self.ctx[n0:]), v[1])
                 fr[name] = v
                 return
         self.env[-1][name] = v
@@ -147,7 +166,7 @@ class Interp:
             fr = {}
             for k in set(fa) | set(fb):
                 if k in fa and k in fb:
-                    fr[k] = fa[k] if fa[k] == fb[k] else phi([fa[k], fb[k]])
+                    fr[k] = fa[k] if (fa[k] == fb[k] or k[:1] == "\0") else phi([fa[k], fb[k]])
                 else:
                     fr[k] = fa.get(k, fb.get(k))
             out.append(fr)
@@ -216,6 +235,7 @@ class Interp:
             if pat[1][:1].isupper() and not pat[2] and not pat[3] and not pat[4]:
                 return
             self.env[-1][pat[1]] = v
+            self.env[-1]["\0d:" + pat[1]] = len(self.loopstack)
             if pat[4]:
                 self.bind(pat[4], v)
         elif t == "ptype":
@@ -1449,6 +1469,10 @@ def show(v, depth=0):
         return "iter(%s)" % s(v[2])
     if t == "phi":
         return "phi(%s)" % " | ".join(s(x) for x in v[1])
+    if t == "exists":
+        return "some-iteration(%s)" % " && ".join(("" if p else "!") + s(c) for c, p in v[2])
+    if t == "flag":
+        return "flag"
     if t == "ite":
         return "if %s {%s} else {%s}" % (s(v[1]), s(v[2]), s(v[3]))
     if t == "rets":
